@@ -5,7 +5,9 @@ From PG Require Import Lib.Strs Model.Dispatch Model.Response.
 Definition REG : registry := [([73;116;101;109], {| si_named := true; si_type := (Some [111;98;106;101;99;116]); si_props := true; si_enum := false; si_items := None |}); ([67;97;116], {| si_named := true; si_type := (Some [111;98;106;101;99;116]); si_props := true; si_enum := false; si_items := None |}); ([67;111;108;111;114], {| si_named := true; si_type := (Some [115;116;114;105;110;103]); si_props := false; si_enum := true; si_items := None |}); ([80;101;116], {| si_named := true; si_type := None; si_props := false; si_enum := false; si_items := None |}); ([73;116;101;109;115], {| si_named := true; si_type := (Some [97;114;114;97;121]); si_props := false; si_enum := false; si_items := (Some ((Some [73;116;101;109]), (Some [111;98;106;101;99;116]))) |}); ([78;97;109;101;115], {| si_named := true; si_type := (Some [97;114;114;97;121]); si_props := false; si_enum := false; si_items := (Some (None, (Some [115;116;114;105;110;103]))) |}); ([78;97;109;101], {| si_named := true; si_type := (Some [115;116;114;105;110;103]); si_props := false; si_enum := false; si_items := None |}); ([87;104;101;110], {| si_named := true; si_type := (Some [115;116;114;105;110;103]); si_props := false; si_enum := false; si_items := None |}); ([67;111;117;110;116], {| si_named := true; si_type := (Some [105;110;116;101;103;101;114]); si_props := false; si_enum := false; si_items := None |})].
 
 Definition d_F05b : dcase := {| d_reg := REG; d_module := [[{| cr_code := (Num 200); cr_content := [{| c_media := [97;112;112;108;105;99;97;116;105;111;110;47;106;115;111;110]; c_type := (TLib [100;97;116;101;116;105;109;101]); c_binfmt := false |}] |}]]; d_op := 0%nat; d_resp := 0%nat; d_entry := (Some 0%nat) |}.
-Definition d_F05c : dcase := {| d_reg := REG; d_module := [[{| cr_code := (Num 200); cr_content := [{| c_media := [116;101;120;116;47;112;108;97;105;110]; c_type := (TPrim PStr); c_binfmt := false |}] |}]]; d_op := 0%nat; d_resp := 0%nat; d_entry := (Some 0%nat) |}.
+Definition d_F05c : dcase := {| d_reg := REG; d_module := [[{| cr_code := (Num 200); cr_content := [{| c_media := [116;101;120;116;47;101;118;101;110;116;45;115;116;114;101;97;109]; c_type := (TClass [73;116;101;109]); c_binfmt := false |}] |}; {| cr_code := (Num 201); cr_content := [{| c_media := [97;112;112;108;105;99;97;116;105;111;110;47;106;115;111;110]; c_type := (TClass [73;116;101;109]); c_binfmt := false |}] |}]]; d_op := 0%nat; d_resp := 1%nat; d_entry := (Some 0%nat) |}.
+Definition d_F05c_text : dcase := {| d_reg := REG; d_module := [[{| cr_code := (Num 200); cr_content := [{| c_media := [116;101;120;116;47;112;108;97;105;110]; c_type := (TPrim PStr); c_binfmt := false |}] |}]]; d_op := 0%nat; d_resp := 0%nat; d_entry := (Some 0%nat) |}.
+Definition d_F05c_text2 : dcase := {| d_reg := REG; d_module := [[{| cr_code := (Num 200); cr_content := [{| c_media := [97;112;112;108;105;99;97;116;105;111;110;47;106;115;111;110]; c_type := (TClass [73;116;101;109]); c_binfmt := false |}] |}; {| cr_code := (Num 201); cr_content := [{| c_media := [116;101;120;116;47;112;108;97;105;110]; c_type := (TPrim PStr); c_binfmt := false |}] |}]]; d_op := 0%nat; d_resp := 1%nat; d_entry := (Some 0%nat) |}.
 Definition d_F05e : dcase := {| d_reg := REG; d_module := [[{| cr_code := (Num 200); cr_content := [{| c_media := [97;112;112;108;105;99;97;116;105;111;110;47;106;115;111;110]; c_type := (TClass [73;116;101;109]); c_binfmt := false |}; {| c_media := [116;101;120;116;47;112;108;97;105;110]; c_type := (TPrim PStr); c_binfmt := false |}] |}]]; d_op := 0%nat; d_resp := 0%nat; d_entry := (Some 0%nat) |}.
 Definition d_F05f_ndjson : dcase := {| d_reg := REG; d_module := [[{| cr_code := (Num 200); cr_content := [{| c_media := [97;112;112;108;105;99;97;116;105;111;110;47;120;45;110;100;106;115;111;110]; c_type := (TClass [73;116;101;109]); c_binfmt := false |}] |}]]; d_op := 0%nat; d_resp := 0%nat; d_entry := (Some 0%nat) |}.
 Definition d_F05f : dcase := {| d_reg := REG; d_module := [[{| cr_code := (Num 200); cr_content := [{| c_media := [97;112;112;108;105;99;97;116;105;111;110;47;106;115;111;110;45;115;101;113]; c_type := (TClass [73;116;101;109]); c_binfmt := false |}] |}]]; d_op := 0%nat; d_resp := 0%nat; d_entry := (Some 0%nat) |}.
@@ -24,8 +26,13 @@ Definition guard_bits (d : dcase) : list bool :=
 Theorem refuted_F05b : guard_bits d_F05b = [false; true; true; true]
   /\ the_path d_F05b = PCast /\ the_want d_F05b = WJsonTyped (TLib [100;97;116;101;116;105;109;101]) /\ C05_holds d_F05b = false.
 Proof. repeat split; vm_compute; reflexivity. Qed.
-Theorem refuted_F05c : guard_bits d_F05c = [true; false; true; true]
-  /\ the_path d_F05c = PCast /\ the_want d_F05c = WText /\ C05_holds d_F05c = false.
+(* F05c fixed for text/binary bodies that are the only kind of content of a response (primary or further 2xx) *)
+Example fixed_F05c_text : c05_guard d_F05c_text = true /\ the_path d_F05c_text = PText /\ C05_holds d_F05c_text = true
+  /\ c05_guard d_F05c_text2 = true /\ the_path d_F05c_text2 = PText /\ C05_holds d_F05c_text2 = true.
+Proof. repeat split; vm_compute; reflexivity. Qed.
+(* still open: e.g. a JSON 201 of an SSE operation is read with the SSE parser *)
+Theorem refuted_F05c : guard_bits d_F05c = [true; false; true; false]
+  /\ the_path d_F05c = PStreamSse /\ the_want d_F05c = WJsonTyped (TClass [73;116;101;109]) /\ C05_holds d_F05c = false.
 Proof. repeat split; vm_compute; reflexivity. Qed.
 (* F05f fixed for application/x-ndjson: read with iter_ndjson, one (structured) item per line *)
 Example fixed_F05f_ndjson : c05_guard d_F05f_ndjson = true /\ the_path d_F05f_ndjson = PStreamNdjson true
@@ -92,7 +99,7 @@ Proof. intros reg t imported Hn Hs. unfold json_path, want_json. rewrite Hs, Hn.
 (* T3/T4: which branch handles a status *)
 Lemma handle_primary : forall reg o r n ct,
   cprocessed o = Some (r, n) ->
-  handle reg o n ct = if is_none_ret (resolve o) then PNone else strategy_path reg (nd_of o) (resolve o) ct.
+  handle reg o n ct = if is_none_ret (resolve o) then PNone else strategy_path reg (nd_of o) (pc_of o) (resolve o) ct.
 Proof. intros reg o r n ct H. unfold handle. rewrite H, N.eqb_refl. reflexivity. Qed.
 
 Lemma handle_secondary : forall reg o p n r m ct,
@@ -112,7 +119,7 @@ Qed.
 Lemma handle_wildcard_primary : forall reg o w st ct,
   cprocessed o = None -> find_status st (cothers o) = None ->
   wildcard_resp o = Some w -> is_strategy_resp o w = true -> 200 <= st < 300 ->
-  handle reg o st ct = if is_none_ret (resolve o) then PNone else strategy_path reg (nd_of o) (resolve o) ct.
+  handle reg o st ct = if is_none_ret (resolve o) then PNone else strategy_path reg (nd_of o) (pc_of o) (resolve o) ct.
 Proof.
   intros reg o w st ct Hp Hf Hw Hs Hr. unfold handle. rewrite Hp, Hf, Hw, Hs.
   replace (in_range wildcard_lo wildcard_hi st) with true
@@ -140,6 +147,20 @@ Proof.
   rewrite (handle_primary _ _ _ _ _ Hp), Hr. split; reflexivity.
 Qed.
 
+(* the text/binary accessor never fires for a response that has a JSON-like content entry *)
+Lemma forallb_false_member : forall {A} (f : A -> bool) l x, In x l -> f x = false -> forallb f l = false.
+Proof.
+  intros A f l x Hin Hf. destruct (forallb f l) eqn:E; [|reflexivity]. rewrite forallb_forall in E. rewrite (E x Hin) in Hf. discriminate.
+Qed.
+Lemma raw_none_member : forall cs e t, In e cs ->
+  is_binary_media (c_media e) = false -> prefixb p_text (c_media e) = false -> raw_accessor cs t = None.
+Proof.
+  intros cs e t Hin Hb Ht. unfold raw_accessor. destruct cs as [|c cs']; [destruct Hin|].
+  destruct (negb (mem_str (show t) raw_body_types)); [reflexivity|].
+  rewrite (forallb_false_member (fun x => prefixb p_text (c_media x)) _ e Hin Ht).
+  rewrite (forallb_false_member (fun x => is_binary_media (c_media x)) _ e Hin Hb). reflexivity.
+Qed.
+
 (* T6: a primary response with a single non-stream JSON content entry *)
 Theorem primary_single_json : forall reg o r n e ct imported,
   cprocessed o = Some (r, n) -> cr_content r = [e] -> is_stream r = false -> json_like (c_media e) = true ->
@@ -152,11 +173,21 @@ Proof.
   pose proof (cprocessed_cprimary _ _ _ Hp) as Hprim.
   assert (Hr : resolve o = mk_plain (c_type e)) by (unfold resolve; rewrite Hprim, Hc, Hs; reflexivity).
   rewrite (handle_primary _ _ _ _ _ Hp), Hr.
-  unfold is_none_ret, strategy_path. cbn [mk_plain st_ret st_streaming st_mapping]. rewrite Hnn, Hnu.
-  unfold ideal. rewrite Hs. cbn [andb].
   unfold json_like in Hj. apply andb_true_iff in Hj. destruct Hj as [Hb Ht].
-  apply negb_true_iff in Hb. apply negb_true_iff in Ht. rewrite Hb, Ht.
+  apply negb_true_iff in Hb. apply negb_true_iff in Ht.
+  assert (Hraw : raw_accessor (pc_of o) (c_type e) = None).
+  { apply (raw_none_member _ e); auto. unfold pc_of. rewrite Hprim, Hc. left. reflexivity. }
+  unfold is_none_ret, strategy_path. cbn [mk_plain st_ret st_streaming st_mapping]. rewrite Hnn, Hraw, Hnu.
+  unfold ideal. rewrite Hs. cbn [andb]. rewrite Hb, Ht.
   apply (json_path_delivers reg (c_type e) imported Hh Hd).
+Qed.
+
+Lemma handler_schema_In : forall cs h, handler_schema cs = Some h -> In h cs.
+Proof.
+  intros cs h H. unfold handler_schema in H.
+  destruct (find (fun e => str_eqb (c_media e) m_json_handler) cs) as [x|] eqn:F.
+  - inversion H; subst. apply find_some in F. tauto.
+  - destruct cs; [discriminate|]. inversion H; subst. left. reflexivity.
 Qed.
 
 (* T2: a secondary 2xx whose JSON entry is the one the handler looks at *)
@@ -169,9 +200,10 @@ Theorem secondary_json : forall reg o p n r m e ct imported,
 Proof.
   intros reg o p n r m e ct imported Hp Hns Hne Hf Hl Hh Hs Hj Hok Hd.
   rewrite (handle_secondary _ _ _ _ _ _ _ Hp Hne Hf Hl). unfold secondary_path. rewrite Hns. rewrite Hh.
-  unfold ideal. rewrite Hs. cbn [andb].
   unfold json_like in Hj. apply andb_true_iff in Hj. destruct Hj as [Hb Ht].
-  apply negb_true_iff in Hb. apply negb_true_iff in Ht. rewrite Hb, Ht.
+  apply negb_true_iff in Hb. apply negb_true_iff in Ht.
+  rewrite (raw_none_member _ e (c_type e) (handler_schema_In _ _ Hh) Hb Ht).
+  unfold ideal. rewrite Hs. cbn [andb]. rewrite Hb, Ht.
   apply (json_path_delivers reg (c_type e) imported Hok Hd).
 Qed.
 
@@ -185,19 +217,15 @@ Proof.
   rewrite (handle_secondary _ _ _ _ _ _ _ Hp Hne Hf Hl). unfold secondary_path, handler_schema. rewrite Hns. rewrite Hc. reflexivity.
 Qed.
 
-(* and ANY secondary 2xx with content is fed to response.json(), whatever its media type (finding F05c):
-   text and bytes are never delivered there *)
-Theorem secondary_never_text_or_bytes : forall reg o p n r m ct imported,
+(* F05c fixed part: a further 2xx response whose content types are all text/* and whose type is str/Any returns
+   response.text (and likewise response.content for binary media) *)
+Theorem secondary_text : forall reg o p n r m h ct imported,
   cprocessed o = Some (p, n) -> st_streaming (resolve o) = false -> m <> n -> find_status m (cothers o) = Some r -> lead2 m = true ->
-  cr_content r <> [] ->
-  delivers imported (handle reg o m ct) WText = false /\ delivers imported (handle reg o m ct) WBytes = false.
+  handler_schema (cr_content r) = Some h -> raw_accessor (cr_content r) (c_type h) = Some PText ->
+  handle reg o m ct = PText /\ delivers imported (handle reg o m ct) WText = true.
 Proof.
-  intros reg o p n r m ct imported Hp Hns Hne Hf Hl Hc.
-  rewrite (handle_secondary _ _ _ _ _ _ _ Hp Hne Hf Hl). unfold secondary_path, handler_schema. rewrite Hns.
-  destruct (find (fun e => str_eqb (c_media e) m_json_handler) (cr_content r)) as [e|].
-  - unfold json_path. destruct (should_use_cattrs reg (show (c_type e))); [destruct (deser_code reg _ _)|]; split; reflexivity.
-  - destruct (cr_content r) as [|e rest]; [congruence|]. cbn [hd_error].
-    unfold json_path. destruct (should_use_cattrs reg (show (c_type e))); [destruct (deser_code reg _ _)|]; split; reflexivity.
+  intros reg o p n r m h ct imported Hp Hns Hne Hf Hl Hh Hraw.
+  rewrite (handle_secondary _ _ _ _ _ _ _ Hp Hne Hf Hl). unfold secondary_path. rewrite Hns, Hh, Hraw. split; reflexivity.
 Qed.
 
 (* T7: streaming primaries *)
